@@ -25,7 +25,17 @@ class lock_handle {
     }
     lock_handle(pointer val, M& mut): data(val), m_handle_lock(mut) {}
     lock_handle(lock_handle&&) = default;
-    lock_handle& operator=(lock_handle&&) = default;
+    /** move assignment; assigning a handle to itself leaves it untouched
+     * (std::unique_lock releases the mutex on self move assignment, which
+     * would leave a non-null handle that no longer holds the lock)*/
+    lock_handle& operator=(lock_handle&& other) noexcept
+    {
+        if (this != &other) {
+            data = other.data;
+            m_handle_lock = std::move(other.m_handle_lock);
+        }
+        return *this;
+    }
     lock_handle(const lock_handle&) = delete;
     lock_handle& operator=(const lock_handle&) = delete;
     /** once unlocked can't be used for data access again*/
@@ -181,7 +191,16 @@ class shared_lock_handle {
     {
     }
     shared_lock_handle(shared_lock_handle&&) = default;
-    shared_lock_handle& operator=(shared_lock_handle&&) = default;
+    /** move assignment; assigning a handle to itself leaves it untouched
+     * (see lock_handle)*/
+    shared_lock_handle& operator=(shared_lock_handle&& other) noexcept
+    {
+        if (this != &other) {
+            data = other.data;
+            m_handle_lock = std::move(other.m_handle_lock);
+        }
+        return *this;
+    }
     shared_lock_handle(const shared_lock_handle&) = delete;
     shared_lock_handle& operator=(const shared_lock_handle&) = delete;
     /** once unlocked can't be used for data access again*/
